@@ -524,4 +524,126 @@ theorem machine_lookup_lazy (rs : Roots) (m hostPort path : Bytes) :
           | bad => cases y <;> simp_all [forget]
           | found r ps t => cases y <;> simp_all [forget]
 
+
+/-! ### a lazy lookup records nothing: whatever it returns is a truncation of what the buffer held -/
+
+def IsTrunc (ps0 ps : Binds) : Prop := ∃ n, ps = ps0.take n
+
+theorem isTrunc_take {ps0 ps : Binds} (h : IsTrunc ps0 ps) (n : Nat) : IsTrunc ps0 (ps.take n) := by
+  obtain ⟨k, rfl⟩ := h
+  exact ⟨min n k, by rw [List.take_take]⟩
+
+def TruncRes (ps0 : Binds) : Result → Prop
+  | .found _ ps _ => IsTrunc ps0 ps
+  | _ => True
+
+def TruncR (ps0 : Binds) (R : Regs) : Prop :=
+  IsTrunc ps0 R.params ∧ (∀ r ps, R.tsr = some (r, ps) → IsTrunc ps0 ps)
+
+theorem truncR_setTsr {ps0 : Binds} {R : Regs} (h : TruncR ps0 R) (o : Option Route) :
+    TruncR ps0 (setTsr R o R.params) := by
+  refine ⟨by simpa using h.1, ?_⟩
+  intro r ps hr
+  rw [setTsr_tsr] at hr
+  cases o with
+  | none => exact h.2 r ps hr
+  | some r' =>
+    cases ht : R.tsr with
+    | some x => rw [ht] at hr; simp at hr; exact h.2 r ps (by rw [ht, hr])
+    | none => rw [ht] at hr; simp at hr; rw [← hr.2]; exact h.1
+
+theorem truncRes_ret {ps0 ps : Binds} (h : IsTrunc ps0 ps) (o : Option Route) : TruncRes ps0 (ret o ps) := by
+  cases o <;> simp [ret, TruncRes, h]
+
+/-- in lazy mode every function of the machine returns a truncation of the initial parameter buffer -/
+theorem lazy_trunc_all (ps0 : Binds) :
+    (∀ lz p cur pre k parent cm pc R, lz = true → TruncR ps0 R → TruncRes ps0 (keyLoop lz p cur pre k parent cm pc R)) ∧
+    (∀ lz p cur pre k' nm parent inode startPath cm R, lz = true → TruncR ps0 R →
+      TruncRes ps0 (infixLoop lz p cur pre k' nm parent inode startPath cm R)) ∧
+    (∀ lz p cur pre k' nm parent startPath cm R, lz = true → TruncR ps0 R →
+      TruncRes ps0 (infixTail lz p cur pre k' nm parent startPath cm R)) ∧
+    (∀ lz p cur pre k parent cm R, lz = true → TruncR ps0 R → TruncRes ps0 (afterLoop lz p cur pre k parent cm R)) ∧
+    (∀ lz p R, lz = true → TruncR ps0 R → TruncRes ps0 (backtrack lz p R)) ∧
+    (∀ lz p cur pre parent cm pc b rest R, lz = true → TruncR ps0 R →
+      TruncRes ps0 (nodeEnd lz p cur pre parent cm pc b rest R)) := by
+  apply keyLoop.mutual_induct
+    (fun lz p cur pre k parent cm pc R => lz = true → TruncR ps0 R → TruncRes ps0 (keyLoop lz p cur pre k parent cm pc R))
+    (fun lz p cur pre k' nm parent inode startPath cm R => lz = true → TruncR ps0 R →
+      TruncRes ps0 (infixLoop lz p cur pre k' nm parent inode startPath cm R))
+    (fun lz p cur pre k' nm parent startPath cm R => lz = true → TruncR ps0 R →
+      TruncRes ps0 (infixTail lz p cur pre k' nm parent startPath cm R))
+    (fun lz p cur pre k parent cm R => lz = true → TruncR ps0 R → TruncRes ps0 (afterLoop lz p cur pre k parent cm R))
+    (fun lz p R => lz = true → TruncR ps0 R → TruncRes ps0 (backtrack lz p R))
+    (fun lz p cur pre parent cm pc b rest R => lz = true → TruncR ps0 R →
+      TruncRes ps0 (nodeEnd lz p cur pre parent cm pc b rest R))
+  · intro lz p cur pre k parent cm pc R hp ih hlz ht; rw [keyLoop_end' hp]; exact ih hlz ht
+  · intro lz p cur pre parent cm pc R b rest hp ih hlz ht; rw [keyLoop_keyEnd' hp]; exact ih hlz ht
+  · intro lz p cur pre parent cm pc R b rest hp c k' hc ih hlz ht; rw [keyLoop_lit' hp, if_pos hc]; exact ih hlz ht
+  · intro lz p cur pre parent cm pc R b rest hp c k' hc ih hlz ht; rw [keyLoop_lit' hp, if_neg hc]; exact ih hlz ht
+  · intro lz p cur pre parent cm pc R b rest hp nm k' h0 ih hlz ht; rw [keyLoop_param' hp, if_pos h0]; exact ih hlz ht
+  · intro lz p cur pre parent cm pc R b rest hp nm k' h0 ih hlz ht
+    rw [keyLoop_param' hp, if_neg h0]; subst hlz
+    exact ih rfl ⟨ht.1, ht.2⟩
+  · intro lz p cur pre parent cm pc R b rest hp nm hcs hlz ht
+    rw [keyLoop_catch_leaf' hp hcs]; subst hlz; exact truncRes_ret ht.1 _
+  · intro lz p cur pre parent cm pc R b rest hp nm c tail hcs ih hlz ht; rw [keyLoop_catch_child' hp hcs]; exact ih hlz ht
+  · intro lz p cur pre parent cm pc R b rest hp nm t k'' ih hlz ht; rw [keyLoop_catch_infix' hp]; exact ih hlz ht
+  · intro lz p cur pre k' nm parent inode startPath cm R hp ih hlz ht; rw [infixLoop_end' hp]; exact ih hlz ht
+  · intro lz p cur pre k' nm parent inode startPath cm R b rest hp hidx hres _ ih2 hlz ht
+    rw [infixLoop_step' hp, if_pos hidx]; simp only [hres]; exact ih2 hlz ht
+  · intro lz p cur pre k' nm parent inode startPath cm R b rest hp hidx r sps hres _ ih2 hlz ht
+    rw [infixLoop_step' hp, if_pos hidx]; simp only [hres]; subst hlz
+    exact ih2 rfl (truncR_setTsr ht _)
+  · intro lz p cur pre k' nm parent inode startPath cm R b rest hp hidx r sps hres _ hlz ht
+    rw [infixLoop_step' hp, if_pos hidx]; simp only [hres]; subst hlz
+    exact ht.1
+  · intro lz p cur pre k' nm parent inode startPath cm R b rest hp hidx hres _ hlz ht
+    rw [infixLoop_step' hp, if_pos hidx]; simp only [hres]; trivial
+  · intro lz p cur pre k' nm parent inode startPath cm R b rest hp hc ih hlz ht
+    rw [infixLoop_step' hp, if_neg hc]; exact ih hlz ht
+  · intro lz p cur pre nm parent startPath cm R hlz ht
+    rw [infixTail_eq', if_pos rfl]; subst hlz; exact truncRes_ret ht.1 _
+  · intro lz p cur pre k' nm parent startPath cm R hk hh ih hlz ht
+    rw [infixTail_eq', if_neg hk, if_pos hh]; subst hlz; exact ih rfl ⟨ht.1, ht.2⟩
+  · intro lz p cur pre k' nm parent startPath cm R hk hh ih hlz ht
+    rw [infixTail_eq', if_neg hk, if_neg hh]; subst hlz; exact ih rfl ⟨ht.1, ht.2⟩
+  · intro lz p cur pre k parent cm R h hlz ht
+    rw [afterLoop_eq', if_pos h]; exact truncRes_ret ht.1 _
+  · intro lz p cur pre k parent cm R h ih hlz ht
+    rw [afterLoop_eq', if_neg h]; exact ih hlz (truncR_setTsr ht _)
+  · intro lz p R h r ps ht' hlz ht
+    rw [backtrack_nil' h, ht']; exact ht.2 r ps ht'
+  · intro lz p R h ht' hlz ht
+    rw [backtrack_nil' h, ht']; trivial
+  · intro lz p R f st h ih hlz ht
+    rw [backtrack_cons' h]
+    exact ih hlz ⟨isTrunc_take ht.1 _, ht.2⟩
+  · intro lz p cur pre parent cm pc b rest R; dsimp only; intro hs wc hpc ih hlz ht
+    rw [nodeEnd_eq', hs, hpc]
+    have := truncR_setTsr ht (earlyCand cur cm b rest)
+    exact ih hlz ⟨this.1, this.2⟩
+  · intro lz p cur pre parent cm pc b rest R; dsimp only; intro hs hpc wc hwc ih hlz ht
+    rw [nodeEnd_eq', hs, hpc, hwc]
+    exact ih hlz (truncR_setTsr ht _)
+  · intro lz p cur pre parent cm pc b rest R; dsimp only; intro hs hpc hwc ih hlz ht
+    rw [nodeEnd_eq', hs, hpc, hwc]
+    exact ih hlz (truncR_setTsr ht _)
+  · intro lz p cur pre parent cm pc b rest R; dsimp only; intro sc hs ih hlz ht
+    rw [nodeEnd_eq', hs]
+    have := truncR_setTsr ht (earlyCand cur cm b rest)
+    exact ih hlz ⟨this.1, this.2⟩
+
+/-- **a lazy lookupByPath records nothing**: started on an emptied buffer (as every caller does) it reports no parameter;
+    started on any buffer it reports a truncation of it - it never appends, and never re-slices beyond what it holds
+    (`paramCnt` stays where it was, so every `(*c.params)[:skipped.paramCnt]` is a genuine truncation) -/
+theorem lookupByPath_lazy_records_nothing (target : Node) (path : Bytes) :
+    ∀ r ps t, Machine.lookupByPath target path [] true = .found r ps t → ps = [] := by
+  intro r ps t h
+  have := (lazy_trunc_all []).1 true path target [] target.key none 0 0 { params := [] } rfl ⟨⟨0, rfl⟩, by intro r ps h; cases h⟩
+  unfold Machine.lookupByPath at h
+  simp only [List.length_nil] at h
+  rw [h] at this
+  obtain ⟨n, hn⟩ := this
+  simpa using hn
+
 end Fox.Model
